@@ -136,7 +136,7 @@ def main():
             groups = list(mesh.Get_list_groupElem(mesh.dim))
             if mesh.dim > 1:
                 groups += list(mesh.Get_list_groupElem(mesh.dim - 1))
-            if kind_op == "reorder" or rng.random() < 0.3:
+            if kind_op == "reorder" or not (rng.random() >= 0.3):
                 groups = groups[::-1]
             cplx = rng.random() < 0.3
             forced = {1: "real-first", 3: "complex-first"}.get(op) if h % 2 == 0 else None   # mixed real / complex groups in both orders
@@ -182,12 +182,12 @@ def main():
                 nontrivial = any(x is not None for _, x in gd)
                 res.case((h, op, s), nontrivial=nontrivial)
                 res.count(f"slot{'KCMF'[s]}:{'present' if nontrivial else 'absent'}")
-                if got.shape != want.shape or np.abs(got - want).max() > 1e-9:
+                if got.shape != want.shape or not (np.abs(got - want).max() <= 1e-9):
                     bad = np.argwhere(np.abs(got - want) > 1e-9)[:3].tolist() if got.shape == want.shape else "shape"
                     res.fail(f"assembly slot={'KCMF'[s]} sim={kind} elem={et}",
                              f"{'KCMF'[s]} assembled by {'__Assemble_csr' if kind_op == 'direct' else 'Assembly'} differs from the scatter-add of the element arrays at {bad} "
                              f"(max dev {np.abs(got - want).max() if got.shape == want.shape else 'n/a'})", ident)
-                if nontrivial and len(lines) < (60 if args.tier == "quick" else 300) and ndof <= 60:
+                if nontrivial and not (len(lines) >= (60 if args.tier == "quick" else 300)) and ndof <= 60:
                     lines.append(request_line(gd, dof_n, ndof, is_matrix))
                     Ac = A.tocsr()
                     Ac.sort_indices()
@@ -200,6 +200,98 @@ def main():
                         inv = "error: " + repr(ex)
                     expect.append((ident, s, ncol, keys, inv, Ac.data.astype(complex)))
         res.sample(dict(history=h, sim=kind, elemType=et, ops=history))
+
+    # ---------- element values in any unit system: the scatter-add is linear, a slot of tiny (or huge) entries is assembled like any other ----------
+    # own random stream: the histories above and the renumbering below keep theirs
+    import random as _random
+    rngU = _random.Random(args.seed * 104729 + 3)
+    for et_u, kind_u in (("TRI3", "elastic"), ("QUAD4", "thermal"), ("TETRA4", "thermal"), ("SEG2", "thermal")):
+        try:
+            simU, meshU = make_sim(rngU, kind_u, et_u)
+            ptU = simU.problemType
+            dofU = simU.Get_dof_n(ptU)
+            ndofU = meshU.Nn * dofU
+            groupsU = list(meshU.Get_list_groupElem(meshU.dim))
+            if meshU.dim > 1:
+                groupsU += list(meshU.Get_list_groupElem(meshU.dim - 1))
+            groupsU = [g for g in groupsU if g.Ne > 0]
+            # each step gives the power-of-two unit of each slot (K, C, M, F) and of the boundary groups relative to the bulk:
+            # integers times a power of two add up exactly, so the comparison stays exact whatever the unit
+            steps = [(0, 0, 0, 0, 0), (17, -30, -47, 3, 0), (-60, -60, -60, -60, 0), (0, 0, -45, -28, -35), (55, 20, 0, 70, 0),
+                     tuple(rngU.choice([-70, -50, -34, -27, -20, 0, 25, 64]) for _ in range(4)) + (rngU.choice([0, -30, 30]),), (0, 0, 0, 0, 0)]
+            for st, units in enumerate(steps):
+                cplxU = st in (3, 5) and rngU.random() < 0.5
+                dU = {}
+                for g in groupsU:
+                    nd = g.nPe * dofU
+                    ub = units[4] if g.dim < meshU.dim else 0
+                    dU[g] = tuple(rand_array(rngU, (g.Ne, nd, nd) if s < 3 else (g.Ne, nd, 1), cplxU) * 2.0 ** (units[s] + ub) for s in range(4))
+                simU._harness_dict = dU
+                identU = dict(scenario="units", elemType=et_u, sim=kind_u, dof_n=int(dofU), Nn=int(meshU.Nn), step=st,
+                              log2_units=dict(K=units[0], C=units[1], M=units[2], F=units[3], boundary_groups=units[4]),
+                              groups=[(g.elemType.name, int(g.Ne)) for g in groupsU], complex=bool(cplxU))
+                for entry in ("Assembly", "__Assemble_csr"):
+                    if entry == "Assembly":
+                        outsU = list(simU.Assembly(ptU))
+                    else:
+                        outsU = [simU._Simu__Assemble_csr({g: v[s] for g, v in dU.items()}, dofU, ndofU, s < 3) for s in range(4)]
+                    for s, A in enumerate(outsU):
+                        wantU = dense_scatter([(g, v[s]) for g, v in dU.items()], dofU, ndofU, s < 3)
+                        gotU = A.toarray().astype(complex)
+                        res.case(("units", et_u, st, entry, s))
+                        res.count(f"units:slot{'KCMF'[s]}")
+                        tolU = 1e-9 * 2.0 ** (units[s] + min(units[4], 0))
+                        if gotU.shape != wantU.shape or not (np.abs(gotU - wantU).max() <= tolU):
+                            dev = np.abs(gotU - wantU).max() if gotU.shape == wantU.shape else float("nan")
+                            res.fail(f"assembly of element values in small or large units slot={'KCMF'[s]}",
+                                     f"{entry}: element entries are integers times 2^{units[s]} (boundary groups times 2^{units[4]} more); {'KCMF'[s]} differs from their scatter-add by {dev:.3e} "
+                                     f"(largest expected entry {np.abs(wantU).max():.3e}, non-zeros got {int(np.count_nonzero(gotU))} / expected {int(np.count_nonzero(wantU))})", dict(identU, entry=entry))
+        except Exception as ex:  # noqa: BLE001
+            res.fail("assembly of element values in small or large units raises", f"{type(ex).__name__}: {str(ex)[:200]}", dict(scenario="units", elemType=et_u, sim=kind_u))
+
+    # the same with the element matrices of real problems written in SI units at several length scales (a micro-plate has masses of 1e-14 kg
+    # next to a stiffness of 1e5 N/m): every slot against the scatter-add of Construct_local_matrix_system, relative to the slot's own size
+    for L_u in (1.0, 1e-5, 1e-8, 1e4):
+        for kind_u in ("elastic", "thermal"):
+            identP = dict(scenario="SI units", sim=kind_u, elemType="TRI3", L=L_u)
+            try:
+                nU = 4
+                xsU, ysU = np.meshgrid(np.linspace(0, L_u, nU + 1), np.linspace(0, L_u, nU + 1), indexing="ij")
+                coordU = np.c_[xsU.ravel(), ysU.ravel(), np.zeros(xsU.size)]
+                iU = np.arange((nU + 1) ** 2).reshape(nU + 1, nU + 1)
+                aU, bU, cU, eU = iU[:-1, :-1].ravel(), iU[1:, :-1].ravel(), iU[1:, 1:].ravel(), iU[:-1, 1:].ravel()
+                meshP = Mesh({ElemType.TRI3: GroupElemFactory.Create(ElemType.TRI3, np.vstack([np.c_[aU, bU, cU], np.c_[aU, cU, eU]]), coordU)})
+                if kind_u == "elastic":
+                    simP = Simulations.Elastic(meshP, Models.Elastic.Isotropic(2, E=210e9, v=0.3, planeStress=True, thickness=L_u / 10))
+                    simP.rho = 7800.0
+                    simP.Set_Rayleigh_Damping_Coefs(coefM=1e-3, coefK=1e-9)
+                    simP.Solver_Set_Hyperbolic_Algorithm(dt=1e-9)
+                else:
+                    simP = Simulations.Thermal(meshP, Models.Thermal(k=45.0, c=480.0, thickness=L_u / 10))
+                    simP.rho = 7800.0
+                    simP.Solver_Set_Parabolic_Algorithm(dt=1e-6)
+                ptP = simP.problemType
+                dofP = simP.Get_dof_n(ptP)
+                ndofP = meshP.Nn * dofP
+                locP = simP.Construct_local_matrix_system(ptP)
+                for entry in ("Assembly", "Get_K_C_M_F", "Get_K_C_M_F again"):
+                    matsP = simP.Assembly(ptP) if entry == "Assembly" else simP.Get_K_C_M_F(ptP)
+                    for s in range(4):
+                        dataP = [(g, np.asarray(X[s])) for g, X in locP.items() if X[s] is not None]
+                        if not dataP:
+                            continue
+                        wantP = dense_scatter(dataP, dofP, ndofP, s < 3).real
+                        gotP = matsP[s].toarray()[:ndofP, : (ndofP if s < 3 else 1)]
+                        res.case(("SI-units", kind_u, L_u, entry, s))
+                        res.count("SI-units")
+                        scaleP = np.abs(wantP).max()
+                        if gotP.shape != wantP.shape or not (np.abs(gotP - wantP).max() <= 1e-12 * scaleP):
+                            dev = np.abs(gotP - wantP).max() if gotP.shape == wantP.shape else float("nan")
+                            res.fail(f"assembly of a problem in SI units slot={'KCMF'[s]} sim={kind_u}",
+                                     f"{entry}: plate of side {L_u:g} m, thickness {L_u / 10:g} m: {'KCMF'[s]} differs from the scatter-add of the element matrices by {dev:.3e} "
+                                     f"(largest entry of the scatter-add {scaleP:.3e}, non-zeros got {int(np.count_nonzero(gotP))} / expected {int(np.count_nonzero(wantP))})", dict(identP, entry=entry))
+            except Exception as ex:  # noqa: BLE001
+                res.fail(f"assembly of a problem in SI units raises sim={kind_u}", f"{type(ex).__name__}: {str(ex)[:200]}", identP)
 
     # ---------- a system large enough for row * Ndof + col to exceed 2^31 (Ndof > 46340) ----------
     try:
@@ -228,7 +320,7 @@ def main():
             ref = _sp.coo_matrix((np.asarray(Ke).ravel(), (rowsL, colsL)), shape=(NdofL, NdofL)).tocsr()
             dif = abs(got.tocsr() - ref)
             md = dif.max() if dif.nnz else 0.0
-            if md > 1e-9 * (1 + abs(ref).max()):
+            if not (md <= 1e-9 * (1 + abs(ref).max())):
                 badrows = np.unique(dif.tocoo().row[dif.tocoo().data > 1e-9 * (1 + abs(ref).max())])
                 res.fail(f"assembly of a large system slot={nm}", f"Ndof = {NdofL} (Ndof^2 > 2^31): {nm} differs from the scatter-add by {md:.3e} on {len(badrows)} rows (first {int(badrows[0])})",
                          dict(elemType="TRI3", Nn=int(meshL.Nn), Ndof=int(NdofL)))
@@ -258,7 +350,7 @@ def main():
             except Exception as ex:  # noqa: BLE001
                 res.fail(f"assembly with a {small.__name__} connectivity", f"Ndof = {NdofL}: assembling raised {type(ex).__name__}: {str(ex)[:120]}", dict(elemType="TRI3", Nn=int(meshL.Nn), Ndof=int(NdofL), connect_dtype=small.__name__))
                 continue
-            if K_S.shape != K_L.shape or mdS > 1e-9 * (1 + abs(K_L).max()):
+            if K_S.shape != K_L.shape or not (mdS <= 1e-9 * (1 + abs(K_L).max())):
                 res.fail(f"assembly with a {small.__name__} connectivity", f"Ndof = {NdofL}: K differs from the one assembled with the same connectivity in 64-bit integers by {mdS:.3e}",
                          dict(elemType="TRI3", Nn=int(meshL.Nn), Ndof=int(NdofL), connect_dtype=small.__name__))
     except MemoryError:
@@ -294,7 +386,7 @@ def main():
                         continue
                     want_ = dense_scatter(data_, dofn_, ndof_, True).real
                     got_ = mats_[slot].toarray()[:ndof_, :ndof_]
-                    if np.abs(got_ - want_).max() > 1e-9 * (1 + np.abs(want_).max()):
+                    if not (np.abs(got_ - want_).max() <= 1e-9 * (1 + np.abs(want_).max())):
                         res.fail(f"assembly with Lagrange conditions slot={nm}", f"{read}: the structural block of {nm} differs from the scatter-add of the element arrays by {np.abs(got_ - want_).max():.3e} (relative to {np.abs(want_).max():.3e})", dict(identb, read=read))
                         break
     except Exception as ex:  # noqa: BLE001
@@ -319,9 +411,9 @@ def main():
             got_ = form_.Assemble(fld).toarray()
             res.case(("form-assemble", fet, fdofn))
             res.count("form-assemble")
-            if np.abs(Ke_ - np.swapaxes(Ke_, 1, 2)).max() < 1e-12:
+            if not (np.abs(Ke_ - np.swapaxes(Ke_, 1, 2)).max() >= 1e-12):
                 res.notes.append("form-assemble: the chosen form came out symmetric")
-            if got_.shape != want_.shape or np.abs(got_ - want_).max() > 1e-10 * (1 + np.abs(want_).max()):
+            if got_.shape != want_.shape or not (np.abs(got_ - want_).max() <= 1e-10 * (1 + np.abs(want_).max())):
                 res.fail("BiLinearForm.Assemble is not the scatter-add of Integrate_e", f"non-symmetric form on {fet} (dof_n = {fdofn}): max difference {np.abs(got_ - want_).max():.3e}; against the transpose {np.abs(got_ - want_.T).max():.3e}", dict(elemType=fet, dof_n=fdofn))
     except Exception as ex:  # noqa: BLE001
         res.fail("BiLinearForm.Assemble raises", f"{type(ex).__name__}: {str(ex)[:200]}", dict(entry="BiLinearForm.Assemble"))
@@ -351,9 +443,9 @@ def main():
             sims.append((s, s.Solve().copy(), s.Get_K_C_M_F()[0].toarray()))
         (s1, u1, K1), (s2, u2, K2) = sims
         res.case(("renumber", rep, et))
-        if np.abs(K2[np.ix_(perm, perm)] - K1).max() > 1e-12 * np.abs(K1).max():
+        if not (np.abs(K2[np.ix_(perm, perm)] - K1).max() <= 1e-12 * np.abs(K1).max()):
             res.fail(f"renumbering matrix elem={et}", "renumbering the nodes does not permute the assembled matrix", dict(elem=et, perm=perm.tolist()))
-        if np.abs(u2[perm] - u1).max() > 1e-9 * (1 + np.abs(u1).max()):
+        if not (np.abs(u2[perm] - u1).max() <= 1e-9 * (1 + np.abs(u1).max())):
             res.fail(f"renumbering solution elem={et}", f"renumbering the nodes changes the solution (max dev {np.abs(u2[perm] - u1).max():.2e})",
                      dict(elem=et, perm=perm.tolist()))
 
@@ -377,7 +469,7 @@ def main():
                 res.disagree("csr-pattern", dict(ident=ident, slot="KCMF"[s]))
             elif isinstance(inv, str) or m_inv != inv:
                 res.disagree("element-to-slot-map", dict(ident=ident, slot="KCMF"[s], real=inv if isinstance(inv, str) else "differs"))
-            elif m_data.shape != data.shape or np.abs(m_data - data).max() > 1e-9:
+            elif m_data.shape != data.shape or not (np.abs(m_data - data).max() <= 1e-9):
                 res.disagree("csr-data", dict(ident=ident, slot="KCMF"[s]))
     res.search_note = "seeded assembly histories with the dense scatter-add oracle found no misplaced, dropped or duplicated entry"
     res.write("seeded histories of assemblies (Assembly and direct __Assemble_csr with extra Lagrange rows) on Thermal/Elastic simulations of 9 element types, "
